@@ -73,7 +73,7 @@ pub const SPECS: &[PropSpec] = &[PropSpec {
     quick_runs: 16_000,
     thorough_runs: 400_000,
     default_seed: 101,
-    rule: "runs are generated from C01's space (2-4 peers, 1-2 local players each, delays 0-6, windows 1-12, sparse on/off, both predictors, five input modes, tick jitter/pauses/rate ratios, per-packet loss <= 25 %, duplication <= 10 %, latency 0-150 ms with jitter, burst outages short of the timeout, 50-5000 frames, 0-2 spectators); a run is non-trivial if it had >= 1 rollback, >= 1 network fault that actually fired and >= 50 frames sealed against the serial replay; distinct = distinct 64-bit hash of the executed schedule; swarm switches of every generic plan: desync detection on in a quarter of the runs, a game that keeps its own snapshots (None data in the cells) in a fifth, local inputs submitted in seeded order with throw-away submissions first in 30 %",
+    rule: "runs are generated from C01's space (2-4 peers, 1-2 local players each, delays 0-6, windows 1-12, sparse on/off, both predictors, five input modes, tick jitter/pauses/rate ratios, per-packet loss <= 25 %, duplication <= 10 %, latency 0-150 ms with jitter, burst outages short of the timeout, 50-5000 frames, 0-2 spectators); a run is non-trivial if it had >= 1 rollback, >= 1 network fault that actually fired and >= 50 frames sealed against the serial replay; distinct = distinct 64-bit hash of the executed schedule; swarm switches of every generic plan: desync detection on in a quarter of the runs, a game that keeps its own snapshots (None data in the cells) in a fifth, local inputs submitted in seeded order with throw-away submissions first in 30 %; the game's checksum carries the state hash in the low half, in the high half only, or in both halves of the u128 (a third each)",
     nontrivial: nt_c01,
     required_probes: &["rollbacks", "rollbacks_at_full_window", "stalls_at_prediction_limit", "lists_with_two_loads", "drop_random", "duplicate_random", "reordered_deliveries", "drop_window", "sealed_frames", "input_ring_wraps"],
     assumptions: BASE_ASSUME,
@@ -145,7 +145,7 @@ PropSpec {
     quick_runs: 100_000,
     thorough_runs: 2_500_000,
     default_seed: 707,
-    rule: "two peers with 1-2 players each, optional spectator on the survivor, windows 0..=12, delays, sparse on/off, timeouts 300-3000 ms, notify 100-800 ms, survivor tick period 4-40 ms, per-packet loss/duplication; the victim stops at a seeded instant (handshake included), some of its last packets are lost, the survivor may be paused around the death; in 30 % of the runs disconnect_player is called instead. Oracles: poll-by-poll comparison of NetworkInterrupted/NetworkResumed/Disconnected with a two-timer reference model on exact virtual timestamps, C01's timeline check with the accessor's (disconnected, last_frame), the spectator-stream check, liveness of the survivor after the disconnect. Non-trivial = a Disconnected event or API disconnect happened with >= 20 frames simulated; distinct = distinct executed-schedule hash; in 40 % of the death runs the dead peer's program is relaunched on the same address 50-900 ms later (a new magic, a handshake request every 200 ms): foreign traffic from a known address must not keep the old connection alive",
+    rule: "two peers with 1-2 players each, optional spectator on the survivor, windows 0..=12, delays, sparse on/off, timeouts 300-3000 ms, notify 100-800 ms, survivor tick period 4-40 ms, per-packet loss/duplication; the victim stops at a seeded instant (handshake included), some of its last packets are lost, the survivor may be paused around the death; in 30 % of the runs disconnect_player is called instead. Oracles: poll-by-poll comparison of NetworkInterrupted/NetworkResumed/Disconnected with a two-timer reference model on exact virtual timestamps, C01's timeline check with the accessor's (disconnected, last_frame), the spectator-stream check, liveness of the survivor after the disconnect. Non-trivial = a Disconnected event or API disconnect happened with >= 20 frames simulated; distinct = distinct executed-schedule hash; in 40 % of the death runs the dead peer's program is relaunched on the same address 50-900 ms later (a new magic, a handshake request every 200 ms): foreign traffic from a known address must not keep the old connection alive; in 20 % of the death runs the victim's last input packets are not lost but held up until 0.3-2.5 s after the survivor has cut it off (stragglers must change nothing)",
     nontrivial: nt_c07,
     required_probes: &["disconnected", "network_interrupted", "api_calls", "spectator_frames", "rollbacks", "stalls_lockstep"],
     assumptions: BASE_ASSUME,
@@ -193,7 +193,7 @@ PropSpec {
     quick_runs: 30_000,
     thorough_runs: 800_000,
     default_seed: 1111,
-    rule: "C01's space (2-3 peers, 1-2 local players, 0-2 spectators, rollback and lockstep) plus 1-8 set_input_delay(handle, 0..=6) calls per run: 20 % before the first frame, 20 % in the same tick as the previous call, the rest at seeded instants (also while stalled). Every run ends with a quiet tail of 3 s without faults. Oracle: the input-delay reference model gives the true input per player and frame; owner, remotes and spectators must end with it on every sealed frame (C01/C03/C06 checks), no call may panic, every peer must still be advancing in the quiet tail, and at its end at most (spread of the local delays + 1) frames may wait in the outgoing buffer. Non-trivial = >= 1 delay change executed after the session started plus >= 50 sealed frames; distinct = distinct executed-schedule hash",
+    rule: "C01's space (2-3 peers, 1-2 local players, 0-2 spectators, rollback and lockstep) plus 1-8 set_input_delay(handle, 0..=6) calls per run: 20 % before the first frame, 20 % in the same tick as the previous call, the rest at seeded instants (also while stalled). Every run ends with a quiet tail of 3 s without faults. Oracle: the input-delay reference model gives the true input per player and frame; owner, remotes and spectators must end with it on every sealed frame (C01/C03/C06 checks), no call may panic, every peer must still be advancing in the quiet tail, and at its end at most (spread of the local delays + 1) frames may wait in the outgoing buffer. Non-trivial = >= 1 delay change executed after the session started plus >= 50 sealed frames; distinct = distinct executed-schedule hash; in plans with shuffled submissions half of the delay changes on peers with several local players are called between two add_local_input calls of one tick",
     nontrivial: nt_c11,
     required_probes: &["api_calls", "delay_fills", "dropped_submissions", "sealed_frames", "spectator_frames"],
     assumptions: BASE_ASSUME,
@@ -205,7 +205,7 @@ PropSpec {
     quick_runs: 120_000,
     thorough_runs: 3_000_000,
     default_seed: 1212,
-    rule: "60 % handshake stress (2-3 peers, 0-2 spectators, loss up to 40 %, duplication up to 20 %, latency 0-300 ms with 100 % jitter, poll cadences 1-400 ms, never-drained sessions, stray SyncReplies with never-sent nonces from the right address and from strangers), 30 % silences around the notify delay and the timeout (+-200 ms) on a two-peer link, 10 % quiet pairs (two sessions that merely poll for 60 simulated seconds). Oracles: per-address event grammar automaton, handshake accounting (a reply matches iff its nonce was sent to that address and not matched before; Running iff every address has 5 matches; NotSynchronized iff not Running), poll-by-poll timer model, event queue <= 100. Non-trivial = >= 1 handshake completed and >= 1 fault or silence fired; distinct = distinct executed-schedule hash; one run in ten: a spectator that stops polling or whose packets are all lost is cut loose at the 128-input cap (60 s timeout) while a lossy, jittery link to the other player makes several frames confirm within one call",
+    rule: "60 % handshake stress (2-3 peers, 0-2 spectators, loss up to 40 %, duplication up to 20 %, latency 0-300 ms with 100 % jitter, poll cadences 1-400 ms, never-drained sessions, stray SyncReplies with never-sent nonces from the right address and from strangers), 30 % silences around the notify delay and the timeout (+-200 ms) on a two-peer link, 10 % quiet pairs (two sessions that merely poll for 60 simulated seconds). Oracles: per-address event grammar automaton, handshake accounting (a reply matches iff its nonce was sent to that address and not matched before; Running iff every address has 5 matches; NotSynchronized iff not Running), poll-by-poll timer model, event queue <= 100. Non-trivial = >= 1 handshake completed and >= 1 fault or silence fired; distinct = distinct executed-schedule hash; one run in ten: a spectator that stops polling or whose packets are all lost is cut loose at the 128-input cap (60 s timeout) while a lossy, jittery link to the other player makes several frames confirm within one call; handshake links now reach 1.6 s one way (round trips far above the 200 ms retry interval); with a spectator attached half of the silences fall on the host -> spectator link (a spectator session has the same two timers)",
     nontrivial: nt_c12,
     required_probes: &["synchronized", "network_interrupted", "network_resumed", "disconnected", "drop_random", "duplicate_random", "injected_datagrams", "calls_not_synchronized"],
     assumptions: BASE_ASSUME,
@@ -217,7 +217,7 @@ PropSpec {
     quick_runs: 400_000,
     thorough_runs: 10_000_000,
     default_seed: 1313,
-    rule: "degenerate simulation (one SyncTestSession, no network/clock): players 1-4, window 1-12, check distance 0..window-1 (valid) or >= window / sparse (must be rejected), delay 0-6, 30-400 frames; half of the valid runs inject a nondeterministic game step at a seeded frame (check distance >= 2; either every simulation of the frame differs, or only its k-th re-simulation does) and must be reported within check_distance+2 frames naming the first affected frame; the others must never report; non-trivial = valid configuration that simulated >= 20 frames; distinct = distinct (request trace, seed) hash; in 30 % of the runs the game keeps its own snapshots and saves None data with a checksum",
+    rule: "degenerate simulation (one SyncTestSession, no network/clock): players 1-4, window 1-12, check distance 0..window-1 (valid) or >= window / sparse (must be rejected), delay 0-6, 30-400 frames; half of the valid runs inject a nondeterministic game step at a seeded frame (check distance >= 2; either every simulation of the frame differs, or only its k-th re-simulation does) and must be reported within check_distance+2 frames naming the first affected frame; the others must never report; non-trivial = valid configuration that simulated >= 20 frames; distinct = distinct (request trace, seed) hash; in 30 % of the runs the game keeps its own snapshots and saves None data with a checksum; checksum layouts as in C01",
     nontrivial: nt_c13,
     required_probes: &["synctest_runs_with_detection", "synctest_invalid_configs_tried", "rollbacks"],
     assumptions: &["the injected fault is a game step whose result differs between simulations of the same frame (fresh counter mixed into the state)", "no network, no clock: the technique degenerates to seeded workload + fault + oracle + replay"],
@@ -229,7 +229,7 @@ PropSpec {
     quick_runs: 1980,
     thorough_runs: 49_500,
     default_seed: 1515,
-    rule: "fault-free grid: lead k in -7..=7 x symmetric constant latency 0,10,..,100 ms x fps {30,60,120} = 495 cells, each with seeded tick phase, poll period 1-2 ms (the documented main loop: poll often, advance once per frame), input delay and wall-clock skew of up to two days between the machines (quick: 2 seeds per cell, thorough: 100); window sized so that nobody stalls; 3 s warm-up, 5 s measurement; in a third of the runs quality reports and replies are lost for 50-450 ms windows during the warm-up (never during the measurement). On every measured tick: frames_ahead() within 1 of +k / -k, the two values sum to within 1 of zero, ping within one tick (+1 ms) of the true round trip, remote_frames_behind equals the last quality report received and is within 1 of the other side's local_frames_behind; every WaitRecommendation carries frames_ahead() >= 3 and is >= 60 frames after the previous one; network_stats() gives no numbers in the first second. Non-trivial = >= 100 measured ticks; distinct = distinct executed-schedule hash",
+    rule: "fault-free grid: lead k in -7..=7 x symmetric constant latency 0,10,..,100 ms x fps {30,60,120} = 495 cells, each with seeded tick phase, poll period 1-2 ms (the documented main loop: poll often, advance once per frame), input delay and wall-clock skew of up to two days between the machines (quick: 2 seeds per cell, thorough: 100); window sized so that nobody stalls; 3 s warm-up, 5 s measurement; in a third of the runs quality reports and replies are lost for 50-450 ms windows during the warm-up (never during the measurement). On every measured tick: frames_ahead() within 1 of +k / -k, the two values sum to within 1 of zero, ping within one tick (+1 ms) of the true round trip, remote_frames_behind equals the last quality report received and is within 1 of the other side's local_frames_behind; every WaitRecommendation carries frames_ahead() >= 3 and is >= 60 frames after the previous one; network_stats() gives no numbers in the first second. Non-trivial = >= 100 measured ticks; distinct = distinct executed-schedule hash; a quarter of the cells run in lockstep (window 0, input delay = |k| + latency in frames + 3; both start level and the lagging side then misses exactly |k| ticks; the expected lead is read off the two frame counters, because whoever ticks first stalls until the other side's first inputs arrive)",
     nontrivial: nt_c15,
     required_probes: &["timesync_ticks_measured", "wait_recommendations_checked", "wait_recommendation"],
     assumptions: &["the simulated user follows the documented main loop (poll every 1-2 ms): polling only once per tick adds up to a tick of waiting to every measured round trip, which is the user's quantisation", "tolerances of +-1 frame / one tick are derived from poll granularity and integer truncation, not tuned"],
@@ -241,7 +241,7 @@ PropSpec {
     quick_runs: 120_000,
     thorough_runs: 3_000_000,
     default_seed: 1616,
-    rule: "three quarters: seeded sequences of 1-12 SessionBuilder calls (60 % coherent configurations with up to 4 perturbing calls inserted and sometimes one removed, 40 % uniformly random) over small domains (num_players 0-4, handles 0-6, 3 addresses, window/delay 0-16, fps {0,1,60}, desync {Off, On 0, On 1, On 5}, check distance 0-17, max_frames_behind {0,1,10,59,60}, catchup {0,1,2,70}) ended by start_p2p / start_synctest / start_spectator; each call's Ok/InvalidRequest is compared with a reference predicate written from the rustdoc, and every accepted configuration is run (P2P against matching simulated peers and spectators for 120 ticks with all oracles, SyncTest for 60 frames, spectator alone for 60 polls). One quarter: runs of C01's space with 2-12 misuse calls (input for a non-local handle, advance_frame with a local input missing, disconnect of a local/unknown handle, delay change or stats for the wrong player type) that must return the documented error, with a twin run without them (identical request lists and events). Non-trivial = a builder sequence with >= 3 calls, or a misuse run in which >= 2 misuse calls executed; distinct = distinct hash of (call sequence, executed schedule)",
+    rule: "three quarters: seeded sequences of 1-12 SessionBuilder calls (60 % coherent configurations with up to 4 perturbing calls inserted and sometimes one removed, 40 % uniformly random) over small domains (num_players 0-4, handles 0-6, 3 addresses, window/delay 0-16, fps {0,1,60}, desync {Off, On 0, On 1, On 5}, check distance 0-17, max_frames_behind {0,1,10,59,60}, catchup {0,1,2,70}) ended by start_p2p / start_synctest / start_spectator; each call's Ok/InvalidRequest is compared with a reference predicate written from the rustdoc, and every accepted configuration is run (P2P against matching simulated peers and spectators for 120 ticks with all oracles, SyncTest for 60 frames, spectator alone for 60 polls). One quarter: runs of C01's space with 2-12 misuse calls (input for a non-local handle, advance_frame with a local input missing, disconnect of a local/unknown handle, delay change or stats for the wrong player type) that must return the documented error, with a twin run without them (identical request lists and events). Non-trivial = a builder sequence with >= 3 calls, or a misuse run in which >= 2 misuse calls executed; distinct = distinct hash of (call sequence, executed schedule); the builder domain includes with_disconnect_timeout {300,1000,2000,5000} ms and with_disconnect_notify_delay {100,500,2500,6000} ms (independent setters: the delay may exceed the timeout), and in a third of the accepted configurations with a remote peer that peer dies while node 0 hangs for longer than both deadlines",
     nontrivial: nt_c16,
     required_probes: &["builder_sequences", "builder_calls_rejected_as_documented", "builder_starts_rejected_as_documented", "builder_accepted_and_run", "builder_spectator_started", "misuse_calls", "misuse_advance_missing_input", "twin_runs"],
     assumptions: &["the reference validity predicate is written from the rustdoc of SessionBuilder", "input delay and prediction window stay within 0..=16 (a delay beyond the 128-slot input ring is outside the claim)", "an accepted configuration that registers one address both as remote and as spectator is not run (it cannot be mapped onto simulated nodes)"],
@@ -253,7 +253,7 @@ PropSpec {
     quick_runs: 6000,
     thorough_runs: 150_000,
     default_seed: 1717,
-    rule: "C01's space (3-4 peers in half of the plain runs, a third with desync detection on, rollback and lockstep, spectators), plus a seventh of the runs with run-time delay changes (C11's plans) and a seventh with a really diverging game and desync detection (C09's plans); every plan is executed three times in one process with the same API calls, clock readings and per-link packet fates but different hash keys (single key vs a fresh key per map) and different handshake random numbers; request lists, final frames, per-address event sequences with their timestamps and the executed traffic schedule must be identical. Non-trivial = >= 1 rollback and >= 3 nodes or >= 3 players; distinct = distinct executed-schedule hash; two sevenths of the runs are C07's and C06's plans (a player dies or is disconnected while the host serves a spectator)",
+    rule: "C01's space (3-4 peers in half of the plain runs, a third with desync detection on, rollback and lockstep, spectators), plus a seventh of the runs with run-time delay changes (C11's plans) and a seventh with a really diverging game and desync detection (C09's plans); every plan is executed three times in one process with the same API calls, clock readings and per-link packet fates but different hash keys (single key vs a fresh key per map) and different handshake random numbers; request lists, final frames, per-address event sequences with their timestamps and the executed traffic schedule must be identical. Non-trivial = >= 1 rollback and >= 3 nodes or >= 3 players; distinct = distinct executed-schedule hash; two sevenths of the runs are C07's and C06's plans (a player dies or is disconnected while the host serves a spectator); one run in eleven is a C12 handshake-stress plan (when a session turns Running must not depend on hash order or handshake numbers)",
     nontrivial: nt_c17,
     required_probes: &["twin_runs", "rollbacks", "spectator_frames"],
     assumptions: BASE_ASSUME,
